@@ -45,6 +45,17 @@ async fn main() {
                 if flag && seq > floor { floor = seq; }
             }
         }
+        // crafted stragglers: an unflagged operation one below an ingested prune point whose backlink names the prune point itself
+        for np in prune_points.iter().filter(|x| **x >= 1 && **x <= floor) {
+            let crafted = rp_stream::op(&sk, np - 1, Some(ch[*np as usize].hash), b"crafted straggler");
+            let r = ingest_operation(&store, &crafted, &1u64, &1u64, false).await;
+            n += 1;
+            if let Ok(true) = r { if reported.insert("operation-below-ingested-prune-point") {
+                let stored = rp_stream::stored_seqs(&store, &sk).await;
+                rp_core::report(true, "operation-below-ingested-prune-point", json!({"chain": format!("seq 0..5, prune flag on {prune_points:?}"), "delivery_order": order.clone(), "then": format!("unflagged operation at seq {} with the prune point {} as backlink", np - 1, np)}),
+                    json!({"accepted_seq": np - 1, "ingested_prune_point": floor, "stored_seqs_after": stored}), &["oplog::validate_backlink.ensures#ok_iff_links", "oplog::ingest_operation.ensures#never_below_head"]);
+            } }
+        }
     } }
     println!("{}", json!({"summary": true, "evaluations": n, "violating_classes": reported}));
 }
